@@ -30,9 +30,16 @@ func (bucket *Bucket) StartDCPFeed(
 	dbStats *expvar.Map,
 ) error {
 	traceEnter("StartDCPFeed", "bucket=%s, args=%+v", bucket.GetName(), args)
+	if bucket.db() == (closedDB{}) {
+		return ErrBucketClosed
+	}
 	// If no scopes are specified, return feed for the default collection, if it exists
 	if len(args.Scopes) == 0 {
-		return bucket.DefaultDataStore().(*Collection).StartDCPFeed(ctx, args, callback, dbStats)
+		defaultCollection, ok := bucket.DefaultDataStore().(*Collection)
+		if !ok {
+			return ErrBucketClosed
+		}
+		return defaultCollection.StartDCPFeed(ctx, args, callback, dbStats)
 	}
 
 	// Validate requested collections exist before starting feeds
@@ -96,6 +103,9 @@ func (c *Collection) StartDCPFeed(
 		callback:   callback,
 	}
 	feed.events.init()
+	if c.bucket.db() == (closedDB{}) {
+		return ErrBucketClosed
+	}
 
 	// Backfill and registration happen under feedMutex, i.e. atomically with respect to every write's
 	// commit + event posting: a mutation is either in the backfill or delivered live, never neither or both.
